@@ -1,4 +1,5 @@
 import SpowtdModel.Driver.ClassifyCmd
+import SpowtdModel.Driver.LoadCmd
 open Lean Spowtd Spowtd.Driver
 
 def dispatch (cmd : String) (j : Json) : Except String Json :=
@@ -9,6 +10,10 @@ def dispatch (cmd : String) (j : Json) : Except String Json :=
   | "gs" => cmdGs j
   | "gs.check" => cmdGsCheck j
   | "disamb" => cmdDisamb j
+  | "load.f" => cmdLoad (α := Float) j
+  | "load.q" => cmdLoad (α := Rat) j
+  | "timestamp" => cmdTimestamp j
+  | "render" => cmdRender j
   | "classify.f" => cmdClassify (α := Float) j
   | "classify.q" => cmdClassify (α := Rat) j
   | "wf.f" => cmdWf (α := Float) j
